@@ -13,13 +13,13 @@ RULE = ('cases = pipelines prefix . observer . suffix: prefix of row-wise steps 
         'persisted/reported vs the prefix run alone, finalizer call count and position; non-trivial = the suffix discards rows or '
         'resources; distinct = distinct case digest')
 TRUSTED = ['Coq 8.16.1 kernel + vm_compute', 'harness/p05.py oracle (reads back what the observer persisted)',
-           'stamps the file dumpers are documented to write into the descriptor are whitelisted (path suffix, format, encoding, dialect, mediatype, profile, temporal format, decimalChar, groupChar, trueValues, falseValues, counters)']
+           'stamps the file dumpers are documented to write into the descriptor are whitelisted (path suffix, format, encoding, dialect, mediatype, profile, temporal format, decimalChar, groupChar, bareNumber, trueValues, falseValues, counters)']
 ASSUMES = ['suffix steps are built-in steps or user steps that drain their input']
 
-OBS = ['printer', 'dump', 'zip', 'stream', 'checkpoint', 'finalizer', 'finalizer_stats', 'update_stats', 'validate']
-SUFFIX = ['none', 'mutate', 'filter', 'delete_first', 'delete_last', 'delete_all', 'delete_middle', 'concat', 'join_delete', 'join_keep', 'dedup', 'add_field']
+OBS = ['printer', 'dump', 'zip', 'stream', 'checkpoint', 'finalizer', 'finalizer_stats', 'update_stats', 'validate', 'dump_noforce']
+SUFFIX = ['none', 'mutate', 'filter', 'delete_first', 'delete_last', 'delete_all', 'delete_middle', 'concat', 'join_delete', 'join_keep', 'join_inner', 'dedup', 'add_field']
 WHITELIST_RES = {'path', 'format', 'encoding', 'dialect', 'mediatype', 'profile', 'bytes', 'hash', 'count_of_rows'}
-WHITELIST_FIELD = {'format', 'decimalChar', 'groupChar', 'trueValues', 'falseValues'}
+WHITELIST_FIELD = {'format', 'decimalChar', 'groupChar', 'bareNumber', 'trueValues', 'falseValues'}
 WHITELIST_PKG = {'bytes', 'hash', 'count_of_rows', 'profile'}
 
 
@@ -29,8 +29,19 @@ def gen_cases(rng, tier):
     for i in range(n):
         nres = rng.randint(1, 3)
         sizes = [rng.pick([0, 1, 3, 7, 120 if rng.chance(0.1) else 4]) for _ in range(nres)]
-        cases.append({'kind': 'observer', 'sizes': sizes, 'obs': OBS[i % len(OBS)], 'suffix': rng.pick(SUFFIX),
-                      'prefix': rng.pick(['none', 'add_field', 'row_fn'])})
+        obs = OBS[i % len(OBS)]
+        c = {'kind': 'observer', 'sizes': sizes, 'obs': obs, 'suffix': rng.pick(SUFFIX),
+             'prefix': rng.pick(['none', 'add_field', 'row_fn', 'empty_first'])}
+        if obs == 'dump_noforce':
+            # force_format=False: resources whose path has no known extension are not written, the others are
+            c['odd'] = [j for j in range(nres) if rng.chance(0.5)]
+        cases.append(c)
+    # systematically: a join that has nothing to index (its source was emptied upstream) must still let the observers
+    # before it see the whole target
+    for obs in ('dump', 'stream', 'checkpoint', 'finalizer', 'printer', 'zip'):
+        cases.append({'kind': 'observer', 'sizes': [3, 5], 'obs': obs, 'suffix': 'join_inner', 'prefix': 'empty_first'})
+    for odd in ([0], [1], [0, 2], []):
+        cases.append({'kind': 'observer', 'sizes': [3, 4, 2], 'obs': 'dump_noforce', 'suffix': 'none', 'prefix': 'none', 'odd': odd})
     return cases
 
 
@@ -60,6 +71,10 @@ def suffix_steps(case, names):
         if len(names) < 2:
             return []
         return [DF.join(names[0], ['k'], names[1], ['k'], {'cnt': {'aggregate': 'count'}}, source_delete=(s == 'join_delete'))]
+    if s == 'join_inner':
+        if len(names) < 2:
+            return []
+        return [DF.join(names[0], ['k'], names[1], ['k'], {'cnt': {'aggregate': 'count'}}, mode='inner', source_delete=True)]
     if s == 'dedup':
         return [DF.set_primary_key(['k']), DF.deduplicate()]
     if s == 'add_field':
@@ -100,6 +115,10 @@ def run_impl(case):
             p.append(DF.add_field('p', 'string', 'x'))
         if case['prefix'] == 'row_fn':
             p.append(eval('lambda row: _f(row)', {'_f': _rowfn}))
+        if case['prefix'] == 'empty_first':
+            p.append(DF.filter_rows(condition=lambda r: False, resources=names[0]))
+        for j in [j for j in case.get('odd', []) if j < len(names)]:
+            p.append(DF.update_resource(names[j], path=names[j] + '.txt'))
         return p
 
     def observer():
@@ -110,6 +129,8 @@ def run_impl(case):
             return DF.printer(num_rows=1, table_print=lambda d, kw: printed.append(d), header_print=lambda h, kw: None, tablefmt='plain')
         if o == 'dump':
             return DF.dump_to_path(os.path.join(wd, 'd'))
+        if o == 'dump_noforce':
+            return DF.dump_to_path(os.path.join(wd, 'd'), force_format=False)
         if o == 'zip':
             return DF.dump_to_zip(os.path.join(wd, 'd.zip'))
         if o == 'stream':
@@ -149,7 +170,7 @@ def run_impl(case):
         dp0, rows0 = run(prefix() + suffix_steps(case, names))
         dp1, rows1 = run(prefix() + [observer()] + suffix_steps(case, names), count=True)
         dpP, rowsP = run(prefix())
-        stamps = case['obs'] in ('dump', 'zip', 'finalizer_stats')
+        stamps = case['obs'] in ('dump', 'zip', 'finalizer_stats', 'dump_noforce')
         out['down_same_rows'] = rows_enc_l(rows1) == rows_enc_l(rows0)
         out['down_same_desc'] = json.dumps(enc(canon_desc(dp1, stamps)), sort_keys=True) == json.dumps(enc(canon_desc(dp0, stamps)), sort_keys=True)
         out['n_down'] = [len(r) for r in rows1]
@@ -163,6 +184,16 @@ def run_impl(case):
                 with quiet():
                     back = Flow(DF.load(os.path.join(d, 'datapackage.json'))).results()[0]
                 out['content_same'] = rows_enc_l(back) == rows_enc_l(rowsP)
+        elif o == 'dump_noforce':
+            d = os.path.join(wd, 'd')
+            odd = [j for j in case.get('odd', []) if j < len(names)]
+            out['persisted'] = [None if j in odd else count_csv_rows(os.path.join(d, n + '.csv')) for j, n in enumerate(names)]
+            out['unwritten_absent'] = all(not os.path.exists(os.path.join(d, names[j] + '.txt')) for j in odd)
+            out['committed'] = os.path.exists(os.path.join(d, 'datapackage.json'))
+            if out['committed']:
+                dd = json.load(open(os.path.join(d, 'datapackage.json')))
+                out['listed'] = [[r['name'], r['path'], [f['name'] for f in r['schema']['fields']]] for r in dd['resources']]
+                out['listed_want'] = [[r['name'], r['path'], [f['name'] for f in r['schema']['fields']]] for r in dpP['resources']]
         elif o == 'zip':
             import zipfile, io
             try:
@@ -235,6 +266,15 @@ def oracle(case, out):
             return '%s persisted %r rows per resource, the stream at its position has %r (suffix %s)' % (o, out.get('persisted'), want, case['suffix'])
         if out.get('content_same') is False:
             return '%s persisted rows that differ from the stream at its position (suffix %s)' % (o, case['suffix'])
+    if o == 'dump_noforce':
+        if not out.get('committed'):
+            return 'dump_to_path(force_format=False) did not commit its descriptor'
+        exp = [None if j in case.get('odd', []) else w for j, w in enumerate(want)]
+        if out.get('persisted') != exp:
+            return 'dump_to_path(force_format=False) persisted %r rows per resource, the stream at its position has %r (unknown formats %r)' % (
+                out.get('persisted'), want, case.get('odd'))
+        if out.get('listed') != out.get('listed_want'):
+            return 'dump_to_path(force_format=False) lists the resources %r, the package at its position is %r' % (out.get('listed'), out.get('listed_want'))
     if o == 'printer':
         if out['tables'] != len(want):
             return 'printer reported %d resources of %d' % (out['tables'], len(want))
@@ -256,7 +296,8 @@ def coq_term(case, out):
     if 'error' in out or len(case['sizes']) != 1 or case['sizes'][0] > 20:
         return None
     # single-resource cases: the model's observer is transparent and records every row
-    n = case['sizes'][0]
+    # (a prefix that filters every row away leaves an empty stream at the observer's position)
+    n = 0 if case['prefix'] == 'empty_first' else case['sizes'][0]
     return ('(let s := source (fun _ => []) %d %d in '
             'Nat.eqb (records 1 (lmap (g_observe 1) s)) %d && Nat.eqb (List.length (rows_of (committing 1 s))) %d)%%nat') % (
         n, SAMPLE, out['prefix_counts'][0], out['prefix_counts'][0])
